@@ -24,8 +24,9 @@ Record frame : Type := mkF {
 Inductive input : Type :=
 | Frame (f : frame)
 | UnknownType              (* a frame of a type this endpoint does not know (4.1) *)
-| Malformed (code : N).    (* a frame breaking a size / padding rule of 4.2, 6.1-6.9, for which the RFC
+| Malformed (code : N)     (* a frame breaking a size / padding rule of 4.2, 6.1-6.9, for which the RFC
                               names connection error `code` (FRAME_SIZE_ERROR or PROTOCOL_ERROR) *)
+| Eof.                     (* the peer has closed the connection *)
 
 (* ---------- reactions ---------- *)
 
@@ -168,6 +169,7 @@ Definition on_connection (f : frame) : list verdict :=
 Definition verdicts (s : state) (i : input) : list verdict :=
   match i with
   | Malformed code => [CE code]
+  | Eof => [CE c_NoError]                                                                      (* we close as well *)
   | UnknownType => match block s with Some _ => [CE c_ProtocolError] | None => [VIgnore] end    (* 4.1, 6.2 *)
   | Frame f =>
     match block s, f_kind f with
